@@ -5,6 +5,7 @@ import IslaVerif.Driver.C10
 import IslaVerif.Driver.C16
 import IslaVerif.Driver.C20
 import IslaVerif.Driver.C19
+import IslaVerif.Driver.C17
 namespace IslaVerif.Driver
 open IslaVerif
 
@@ -16,6 +17,7 @@ def dispatch : Sexp → Sexp
   | .list (.atom "c16" :: rest) => C16.handle rest
   | .list (.atom "c20" :: rest) => C20.handle rest
   | .list (.atom "c19" :: rest) => C19.handle rest
+  | .list (.atom "c17" :: rest) => C17.handle rest
   | _ => .atom "bad-request"
 
 end IslaVerif.Driver
